@@ -840,6 +840,16 @@ def directed_programs():
             for tn, t in tsts[:3]:
                 th, el = then_else(24)
                 mk('H_%s_%s_%s' % (mn, dn, tn), [asg(dst, V('b')), mid, ('if', t(dst), th, el)])
+    # M. a condition made of several tests, an else part that starts with a test of one of its operands: the else
+    #    label is reached from every test of the condition, with different flags
+    ops2 = [('a&&b', ('bin', '&&', V('a'), V('b'))), ('a||b', ('bin', '||', V('a'), V('b'))), ('!(a&&b)', ('un', '!', ('bin', '&&', V('a'), V('b')))),
+            ('a&&b&&d', ('bin', '&&', ('bin', '&&', V('a'), V('b')), V('d'))), ('X>d&&d', ('bin', '&&', ('bin', '>', V('X'), V('d')), V('d'))),
+            ('a==1||b', ('bin', '||', ('bin', '==', V('a'), N(1)), V('b')))]
+    for cn, cnd in ops2:
+        for en, inner in (('b', V('b')), ('!b', ('un', '!', V('b'))), ('a', V('a')), ('d', V('d')), ('b!=0', ('bin', '!=', V('b'), N(0)))):
+            mk('M_%s_%s' % (cn, en), [('if', cnd, ('block', [asg(V('c'), N(1))]),
+                                       ('block', [('if', inner, ('block', [asg(V('c'), N(2))]), ('block', [asg(V('c'), N(3))]))]))])
+            mk('M2_%s_%s' % (cn, en), [('if', cnd, ('block', [asg(V('c'), N(1))]), None), ('if', inner, ('block', [asg(V('c'), N(2))]), ('block', [asg(V('i'), N(3))]))])
     # K. the comma operator: a sequence point between its operands (pending ++/-- of the left one are done
     #    before the right one is evaluated), as a statement and in the header of a for loop
     C2 = lambda a_, b_: ('bin', ',', a_, b_)
